@@ -109,7 +109,9 @@ func c17Judge(k c17Case) *vlib.Failure {
 		}
 		m.Wrap(http.HandlerFunc(func(http.ResponseWriter, *http.Request) {})).ServeHTTP(vlib.NewRec(), req.HTTP())
 	case "history":
-		smEnsure()
+		if f := smEnsure(); f != nil {
+			return f
+		}
 		for _, init := range []string{"new(A)", "zero"} {
 			m, _, err := smInit(init)
 			if err != nil {
